@@ -109,6 +109,54 @@ func c11Observe(path string, src []byte, withResolver bool) ([]obj, string) {
 	return out, ""
 }
 
+// c11ObserveMulti: one Decorator and one Restorer for several files; the laws are evaluated for every
+// file after ALL files have been processed (the maps are shared by the files of a package).
+func c11ObserveMulti(paths []string, srcs [][]byte, withResolver bool) ([]obj, string) {
+	fset := token.NewFileSet()
+	var d *decorator.Decorator
+	var r *decorator.Restorer
+	if withResolver {
+		d = decorator.NewDecoratorWithImports(fset, "example.com/local", goast.New())
+		r = decorator.NewRestorerWithImports("example.com/local", guess.New())
+	} else {
+		d = decorator.NewDecorator(fset)
+		r = decorator.NewRestorer()
+	}
+	var afs []*ast.File
+	var dfs []*dst.File
+	for i, src := range srcs {
+		af, err := parser.ParseFile(fset, paths[i], src, parser.ParseComments)
+		if err != nil {
+			return nil, ""
+		}
+		var df *dst.File
+		if msg := guard(func() { df, err = d.DecorateFile(af) }); msg != "" {
+			return nil, "decorate: " + msg
+		}
+		if err != nil {
+			return nil, ""
+		}
+		afs, dfs = append(afs, af), append(dfs, df)
+	}
+	var rafs []*ast.File
+	for _, df := range dfs {
+		var raf *ast.File
+		var err error
+		if msg := guard(func() { raf, err = r.RestoreFile(df) }); msg != "" {
+			return nil, "restore: " + msg
+		}
+		if err != nil {
+			return nil, ""
+		}
+		rafs = append(rafs, raf)
+	}
+	var out []obj
+	for i := range dfs {
+		out = append(out, mapsRecord("decorator", afs[i], dfs[i], d.Map), mapsRecord("restorer", rafs[i], dfs[i], r.Map))
+	}
+	return out, ""
+}
+
 func checkC11(c *Ctx) {
 	c.Assume("trees are exported by reflection over struct fields; comments are not syntax nodes")
 	nFiles := 40
@@ -145,6 +193,29 @@ func checkC11(c *Ctx) {
 	var items []traceItem
 	for _, r := range results {
 		items = append(items, r.items...)
+	}
+	// several files through one Decorator / one Restorer
+	var small []srcFile
+	for _, f := range files {
+		if len(f.Src) < 8000 {
+			small = append(small, f)
+		}
+	}
+	for g := 0; g+2 < len(small) && g < map[bool]int{true: 18, false: 300}[c.Quick()]; g += 3 {
+		for _, wr := range []bool{false, true} {
+			paths := []string{small[g].Path, small[g+1].Path, small[g+2].Path}
+			obs, msg := c11ObserveMulti(paths, [][]byte{small[g].Src, small[g+1].Src, small[g+2].Src}, wr)
+			key := fmt.Sprintf("multi|%v|resolver=%v", paths, wr)
+			if msg != "" {
+				c.Fail(Finding{Sig: "maps-observe-fails", Input: key, What: msg, Replay: obj{"kind": "c11multi", "paths": paths, "resolver": wr}})
+			}
+			for i, o := range obs {
+				b, _ := json.Marshal(o)
+				k := fmt.Sprintf("%s|file%d|%s", key, i/2, o["side"])
+				c.Eval(k, true)
+				items = append(items, traceItem{Key: k, Trace: append(b, '\n'), Events: 1, Replay: obj{"kind": "c11multi", "paths": paths, "resolver": wr}})
+			}
+		}
 	}
 	c.Traces(int64(len(items)))
 	validateTraces(c, "MapsTrace", mapsTraceCfg, items, 12, false, func(it traceItem, res *TLCResult) {
